@@ -876,6 +876,8 @@ pub fn run(ctx: &Ctx) -> Outcome {
         let evs: Vec<String> = h.iter().map(|i| format!("{:?}", ALPHABET[*i])).collect();
         out.violation(sig.clone(), format!("history {:?}: {detail}", evs), json!({"events": h, "event_names": evs, "trace": trace}));
     }
+    let n_rac = run_resume_after_closed(&mut out);
+    out.set("resume_after_a_closing_answer_cases", n_rac);
     let n_buf = run_buffered_receiver(&mut out);
     out.set("receiver_with_buffered_deliveries_cases", n_buf);
     let n_cross = run_crossing_disposition(&mut out);
@@ -989,6 +991,104 @@ fn run_buffered_receiver(out: &mut Outcome) -> u64 {
     cnt
 }
 
+/// detach() answered by the peer with a CLOSING detach (the library re-attaches to close, the call fails with
+/// ClosedByRemote and hands the detached link back), then the application tries resume() on what it got back and
+/// finally drops it.  "a link sends its attach, later at most one detach for that attach, and no frame for its handle
+/// after the detach": every detach on the wire must close an attach that is still open on that handle.
+pub async fn resume_after_closed_scenario(resume: bool) -> (Vec<(String, String)>, Vec<String>, Option<String>) {
+    let mut fails = vec![];
+    let mut auto = Auto::default();
+    auto.max_frame_size = 4096;
+    auto.grant_credit = Some(10);
+    let mut c = match scen::open_client(auto, 4096).await {
+        Ok(c) => c,
+        Err(e) => return (fails, vec![], Some(e)),
+    };
+    let mut session = match scen::begin(&mut c, Session::builder()).await {
+        Ok(s) => s,
+        Err(e) => return (fails, vec![], Some(e)),
+    };
+    let sender = match drive(&mut c.peer, Sender::builder().name("s").target("q").sender_settle_mode(SenderSettleMode::Settled).attach(&mut session), Duration::from_secs(3)).await {
+        Some(Ok(s)) => s,
+        _ => return (fails, trace_to_strings(&c.peer.trace), Some("resume-after-closed: attach failed".into())),
+    };
+    settle(&mut c.peer, 1).await;
+    let Some(link) = c.peer.links.last().cloned() else {
+        return (fails, trace_to_strings(&c.peer.trace), Some("resume-after-closed: no link".into()));
+    };
+    // the peer answers the non-closing detach with a closing one; everything else it answers conformingly
+    c.peer.auto.detach = false;
+    let task = tokio::spawn(async move { sender.detach().await });
+    settle(&mut c.peer, 2).await;
+    c.peer.send(0, Performative::Detach(Detach { handle: Handle(link.our_handle), closed: true, error: None }));
+    c.peer.auto.detach = true;
+    let mut result = None;
+    for _ in 0..10 {
+        settle(&mut c.peer, 1).await;
+        if task.is_finished() {
+            result = Some(task.await.expect("detach task"));
+            break;
+        }
+    }
+    let detached = match result {
+        None => return (fails, trace_to_strings(&c.peer.trace), Some("resume-after-closed: detach() still pending (set-up)".into())),
+        Some(Ok(d)) => d,
+        Some(Err((d, _e))) => d,
+    };
+    let what_resume = if resume {
+        let r = drive(&mut c.peer, detached.resume(), Duration::from_secs(3)).await;
+        let s = format!("{:?}", r.as_ref().map(|x| x.as_ref().map(|_| "Ok(sender)").map_err(|e| format!("{:?}", e.kind))));
+        drop(r);
+        s
+    } else {
+        drop(detached);
+        "(not called)".to_string()
+    };
+    settle(&mut c.peer, 3).await;
+    // per-handle automaton over what the library wrote
+    let mut open: std::collections::BTreeSet<u32> = Default::default();
+    for w in c.peer.trace.iter().filter(|w| w.dir == Dirn::FromLib) {
+        match w.perf() {
+            Some(Performative::Attach(a)) => {
+                if !open.insert(a.handle.0) {
+                    fails.push(("attach-on-attached-handle (resume after a closing answer)".to_string(), format!("resume() -> {what_resume}: a second attach on handle {} while it is attached", a.handle.0)));
+                }
+            }
+            Some(Performative::Detach(d)) => {
+                if !open.remove(&d.handle.0) {
+                    fails.push((
+                        "detach-without-attach (resume after a closing answer)".to_string(),
+                        format!("detach() was answered by the peer with a closing detach (the link re-attached and closed); resume() on the link handed back -> {what_resume}; then the link was dropped: a detach was written for handle {} which carries no open attach", d.handle.0),
+                    ));
+                }
+            }
+            _ => {}
+        }
+    }
+    (fails, trace_to_strings(&c.peer.trace), None)
+}
+
+fn run_resume_after_closed(out: &mut Outcome) -> u64 {
+    let mut n = 0;
+    for resume in [false, true] {
+        let scen: Scenario<(Vec<(String, String)>, Vec<String>, Option<String>)> = Arc::new(move || Box::pin(resume_after_closed_scenario(resume)));
+        let ex = run_exec(vec![], &RunCfg::none(), &scen);
+        n += 1;
+        match ex.out {
+            Some((fails, trace, mach)) => {
+                if let Some(m) = mach {
+                    out.machinery_errors.push(m);
+                }
+                for (s, d) in fails {
+                    out.violation(s, d, json!({"kind": "resume-after-closed", "resume": resume, "trace": trace}));
+                }
+            }
+            None => out.machinery_errors.push(format!("resume-after-closed scenario died: {:?}", ex.panics)),
+        }
+    }
+    n
+}
+
 /// A peer's DISPOSITION that crosses a local end.  The sender link settles second: the receiver's unsettled terminal
 /// disposition normally makes the library answer with its settling disposition.  When that disposition was sent before
 /// the peer saw the library's end it arrives after the end frame has gone out, and nothing may follow the end on the
@@ -1090,6 +1190,25 @@ fn replay(p: &std::path::Path, mut out: Outcome) -> Outcome {
     let s = std::fs::read_to_string(p).unwrap_or_default();
     let j: serde_json::Value = serde_json::from_str(&s).unwrap_or_default();
     let r = &j["replay"];
+    if r["kind"] == "resume-after-closed" {
+        let rs = r["resume"].as_bool().unwrap_or(true);
+        let scen: Scenario<(Vec<(String, String)>, Vec<String>, Option<String>)> = Arc::new(move || Box::pin(resume_after_closed_scenario(rs)));
+        let ex = run_exec(vec![], &RunCfg::none(), &scen);
+        if let Some((fails, trace, _)) = ex.out {
+            for l in &trace {
+                println!("  {l}");
+            }
+            for (s, d) in fails {
+                println!("  FAIL {s}: {d}");
+                out.violation(s, d, r.clone());
+            }
+        }
+        out.set("states", 1);
+        out.set("transitions", 1);
+        out.set("traces_validated_against_impl", 1);
+        out.set("samples", json!([r]));
+        return out;
+    }
     if r["kind"] == "buffered-receiver" {
         let (n, we, cl) = (r["n"].as_u64().unwrap_or(1) as u32, r["with_error"].as_bool().unwrap_or(false), r["close"].as_bool().unwrap_or(false));
         let scen: Scenario<(Vec<(String, String)>, Vec<String>, Option<String>)> = Arc::new(move || Box::pin(buffered_receiver_scenario(n, we, cl)));
